@@ -201,7 +201,7 @@ Section Reading.
                 | SCow (SCompactT t) => sp t
                 | t => sp t
                 end); [|rewrite E; reflexivity].
-    unfold field_conv_okb in Hconv.
+    unfold field_conv_okb in Hconv. apply andb_prop in Hconv as [Hconv _]. unfold field_conv_core in Hconv.
     destruct (sf_compact_attr f) eqn:Eca.
     - (* attribute: the inner type is the field type *)
       cbn [src_tpath tpath_pty]. rewrite (tpath_pty_src _ Hok).
